@@ -700,6 +700,15 @@ func (g *Gen) instr(in ssa.Instruction) {
 	case *ssa.UnOp:
 		g.unop(x)
 	case *ssa.Call:
+		// a callee that runs its callbacks on other goroutines after it returns
+		// (`async-invokes`): the closures passed to it are goroutine bodies
+		if ci := g.resolveCallee(x.Common()); ci.ct != nil && ci.ct.AsyncInvokes {
+			for _, a := range x.Common().Args {
+				if mc, ok := a.(*ssa.MakeClosure); ok {
+					g.captureCheck(x, mc)
+				}
+			}
+		}
 		r := g.call(x.Common(), x.Pos(), false)
 		if r.T != "" || len(r.Tup) > 0 {
 			g.set(x, r)
@@ -1832,6 +1841,10 @@ func (g *Gen) goCaptureCheck(x *ssa.Go) {
 	if !ok {
 		return
 	}
+	g.captureCheck(x, mc)
+}
+
+func (g *Gen) captureCheck(x ssa.Instruction, mc *ssa.MakeClosure) {
 	fn, _ := mc.Fn.(*ssa.Function)
 	isJoin := func(in ssa.Instruction) bool {
 		switch y := in.(type) {
@@ -1859,7 +1872,7 @@ func (g *Gen) goCaptureCheck(x *ssa.Go) {
 	}
 	idx := 0
 	for i, in := range blk.Instrs {
-		if in == ssa.Instruction(x) {
+		if in == x {
 			idx = i + 1
 		}
 	}
